@@ -139,6 +139,16 @@ def generate(rng, tier):
     for _ in range(m):
         npts = rng.randint(2, 6)
         pts = [(generic(rng), generic(rng)) for _ in range(npts)]
+        if rng.random() < 0.4:
+            # near-coincident points: a neighbour one ulp / 1e-12 / 1e-10 away from another point, and a tiny-scale cluster - "the same point" must
+            # mean bit-equal coordinates (from_path_segments inserts a MoveTo on ANY discontinuity)
+            import math as _m
+            b = pts[0]
+            d = rng.choice([0.0, 1e-10, 1e-12, 3e-10])
+            pts.append((_m.nextafter(b[0], 1e9), b[1]) if d == 0.0 else (b[0] + d, b[1] - d))
+            u = 2.0 ** -32
+            pts += [(rng.randint(0, 3) * u, rng.randint(0, 3) * u) for _ in range(2)]
+            npts = len(pts)
         ln = rng.randint(1, 40)
         syms = [('M', 0)]
         for _ in range(ln):
